@@ -169,3 +169,12 @@ Definition check_xcase (et : list exit_row) (cf : vcfg) (xs : list xop) (tr : li
       else if negb (archs_match ars st) then 5
       else 0
   end.
+
+(** new_file / del sequences on the nested dicts from an empty archive (SM/VpkNestedMap.v [nrun] over the translated descriptions), the
+    key structure left, and membership of probe names. *)
+From SV Require Import SM.VpkNestedMap.
+Definition check_nrun (g1 g2 : goc) (chk : bool) (prog : dprog) (ops : list nop) (oks : list bool) (after : shape_t)
+           (probes : list (key * bool)) : bool :=
+  let '(l, t) := nrun g1 g2 chk prog [] ops in
+  bools_eqb l oks && shape_eqb (tree_shape t) after
+  && forallb (fun pb => Bool.eqb (match nlookup t (fst pb) with Some _ => true | None => false end) (snd pb)) probes.
